@@ -93,6 +93,19 @@ CHECKS = {
         text="Fonts made of congruent copies of one prototype (exact tier: integer coordinates, k*90 degree rotations, mirrors; arbitrary tier: any isometry) are built as COLRv0, COLRv1 and picosvg; every copy must be drawn from one outline, a control build with reuse disabled must store them separately. The property does not hold as stated on this tree (finding F6): each miss is attributed by re-running picosvg's normalisation / affine recovery on the unrounded shapes to K1 rounding straddle, K2 insignificant-y mirror, K3 affine_between failure or K4 threshold straddle; any other miss is a violation.",
         design="3/C19",
     ),
+    "C08": dict(
+        level="exploration",
+        technique="runtime monitoring: repeated real CLI builds under perturbed schedules (ninja -j, injected per-step delays), argument orders, hash seeds and directories; byte-equality oracle over sha256; step event logs count the distinct completion orders observed",
+        text="Each (format, source set) class is built six times by the real nanoemoji CLI with permuted arguments, glob vs list in TOML, four PYTHONHASHSEED values, -j1/-j4/-j16 with randomised step delays injected by PATH shims and a sitecustomize module, deep build directories with spaces, different working directories and relative vs absolute paths; font, feature file and glyph-map rows must hash equal. An in-process multiplier rebuilds generated source sets in fresh interpreters under four hash seeds. Held on the schedules observed (their count is in the evidence).",
+        design="3/C08",
+    ),
+    "C09": dict(
+        level="fault_enumeration",
+        technique="runtime monitoring with fault injection: single-fault enumeration over every edge of the real ninja graph (fail / kill with truncated output), driver kills at every build statement, process-group SIGKILL, each in a first build and in an incremental rebuild, plus random edit/option/fault histories; convergence oracle = byte equality with a clean build, exit-status oracle from the event log",
+        text="Faults are injected from outside (PATH shims for resvg/pngquant/ninja, sitecustomize for the driver, picosvg and every python -m step). For the quick tier the glyf_colr_1 graph is enumerated completely (every edge x {exit non-zero, killed after truncating its output}, driver killed after the config write and after each build statement, group kill), in a first build and in an incremental rebuild, plus samples of the picosvg and cbdt graphs and 16 random histories; the thorough tier enumerates all three graphs and 160 histories. After each history one fault-free invocation must reproduce the clean build's bytes and every invocation with a fired fault must have exited non-zero.",
+        design="3/C09",
+        note="Trusted base: ninja's mtime/log semantics, the event log written by the shims; edits advance mtime; bytes comparable across directories (C08).",
+    ),
 }
 
 NOT_YET = {}
